@@ -125,6 +125,8 @@ def lookup(root, lvl):
 
 
 def dump_task(t, sync):
+    if not hasattr(t, "_nodes"):
+        return {"not-a-task": repr(t)[:80]}
     root = t._nodes.get(t._root_level)
     stale = False
     if sync and root is not None and hasattr(root, "_children"):
@@ -146,6 +148,7 @@ def run_real(msgs, sync=True):
     p = Parser()
     steps = []
     failed = False
+    states = run_real.states = [p]
     for m in msgs:
         try:
             done, p2 = p.add(to_dict(m))
@@ -155,7 +158,22 @@ def run_real(msgs, sync=True):
             break
         p = p2
         steps.append({"y": [dump_task(t, sync) for t in done], "i": {u: dump_task(t, sync) for u, t in p._tasks.items()}})
+        states.append(p)
+        if isinstance(done, list):
+            # what `add` hands back is the caller's to keep and to change (an accumulator, say): that must not come back later
+            done.append("the caller's own entry")
     return steps, (None if failed else p)
+
+
+def continue_from(state, msgs):
+    """Feed `msgs` to a parser state kept from earlier (the parser is a persistent value: keeping a state and continuing
+    it in a second way is legitimate) -> (yield counts per step, final in-flight uuids, final completeness per task)"""
+    p = state
+    ys = []
+    for m in msgs:
+        done, p = p.add(to_dict(m))
+        ys.append(sorted(chash(dump_task(t, False)) for t in done if not isinstance(t, str)))
+    return ys, {u: chash(dump_task(t, False)) for u, t in p._tasks.items()}
 
 
 def norm_model(steps):
@@ -199,6 +217,21 @@ def oracle_wf(ctx, case, steps, parser):
             if 0 < n < total[u2] and u2 not in s["i"]:
                 ctx.violation("incomplete task %s missing from the parser" % u2, dict(case, msgs=msgs[: i + 1]))
                 return None
+    # a kept parser state continued in a second way behaves like a fresh parser fed the same messages
+    states = getattr(run_real, "states", None)
+    if states and len(states) == len(msgs) + 1 and len(msgs) >= 2:
+        k = (sum(m["body"] for m in msgs) * 31) % len(msgs)
+        alt = [m for j, m in enumerate(msgs[k:]) if (m["body"] + j) % 3 != 0][::-1]
+        try:
+            a = continue_from(states[k], alt)
+            b = continue_from(Parser(), msgs[:k] + alt)
+            if a[0] != b[0][k:] or a[1] != b[1]:
+                ctx.violation("a parser state kept after %d messages and continued with %d other messages does not behave like a fresh "
+                              "parser fed the same %d messages (what it hands back / still holds differs)" % (k, len(alt), k + len(alt)), case)
+                return None
+        except Exception as e:  # noqa
+            ctx.violation("continuing a kept parser state raised %s" % type(e).__name__, case)
+            return None
     # parse_stream: completed once each as they complete, then the incomplete ones, nothing else
     try:
         stream = list(Parser.parse_stream([to_dict(m) for m in msgs]))
